@@ -48,7 +48,7 @@ def sites(pattern, sub="base/src"):
         src, m = code_lines(rel)
         for mm in re.finditer(pattern, m):
             ln = src.count("\n", 0, mm.start()) + 1
-            res.append((rel, enclosing_fn(m, mm.start()), ln, src.split("\n")[ln - 1].strip()))
+            res.append((rel, enclosing_fn(m, mm.end()), ln, src.split("\n")[ln - 1].strip()))
     return res
 
 
@@ -82,3 +82,20 @@ def _history_writers():
                 "new", "from_model", "from_bytes", "new_empty"]}
     allowed |= {("base/src/user_model/history.rs", f) for f in ["push", "undo", "redo"]}
     return expect_sites("history-writers", r"\.\s*(send_queue|undo_stack|redo_stack|history)\b", allowed)
+
+
+@scan("number-writers")
+def _number_writers():
+    """C08: every site in base/src that can construct a numeric cell value is one of the writers under contract in unit
+    `finite`, a delegate that ends in the guarded Worksheet::set_cell_with_number, or a known reader (pattern position)."""
+    M, C, W, A, T, U = "base/src/model.rs", "base/src/cell.rs", "base/src/worksheet.rs", "base/src/actions.rs", "base/src/types.rs", "base/src/user_model/common.rs"
+    writers = {(M, "array_node_to_formula_value"), (M, "array_node_to_spill_value"), (M, "formula_value_to_spill_value"),
+               (M, "set_cells_with_result"), (C, "new_number"), (W, "set_cell_with_number")}
+    delegates = {(M, "update_cell_with_number"), (M, "set_user_input"), (M, "set_cell_with_number")}
+    readers = {(A, "move_cell"), (A, "move_column_unchecked"), (A, "move_row_unchecked"), (C, "set_style"), (C, "get_style"),
+               (C, "get_type"), (C, "value"), (C, "formula_value_to_cell_value"), (C, "spill_value_to_cell_value"),
+               (M, "get_cell_value"), (M, "test_get_cell"), (T, "fmt"), (U, "get_cell_array_structure")}
+    ok, detail, n = expect_sites("number-writers",
+                                 r"FormulaValue::Number\(|SpillValue::Number\(|NumberCell\s*\{|new_number\(|set_cell_with_number\(",
+                                 writers | delegates | readers)
+    return ok, detail, n
